@@ -59,6 +59,15 @@ class LeafScenario(Scenario):
                 op = test.ops[0]
                 table = {ast.Eq: sg == 0, ast.NotEq: sg != 0, ast.Gt: sg > 0, ast.GtE: True, ast.Lt: False, ast.LtE: sg == 0}
                 return table[type(op)]
+            if isinstance(test.ops[0], (ast.Eq, ast.NotEq)) and ast.unparse(test.comparators[0]) not in ("0.0", "0") and ast.unparse(test.left) not in ("0.0", "0"):
+                # `other.mean != self.mean`: two different symbolic values differ in the generic case the scenario stands for;
+                # identical expressions are equal
+                try:
+                    d = formula(diff, env, opaque_user)
+                    same = d.equals(Rat.const(0))
+                    return same if isinstance(test.ops[0], ast.Eq) else (not same)
+                except Unsupported:
+                    pass
         if isinstance(test, ast.Call):
             fn = ast.unparse(test.func)
             if fn == "isinstance":
